@@ -1,5 +1,5 @@
-//! Shared helpers: decision-log parser, small combinatorial enumerators, panic capture.
-
+//! Shared helpers: decision-log parser, small combinatorial enumerators, panic / abort capture,
+//! repository fingerprint.
 
 /// Remove ANSI colour escapes (the simulator colours its log when attached to a terminal).
 pub fn strip_ansi(s: &str) -> String {
@@ -442,7 +442,7 @@ extern "C" fn on_abort(_sig: i32) {
 pub fn install_abort_handler() {
     const SIGABRT: i32 = 6;
     unsafe {
-        signal(SIGABRT, on_abort as usize);
+        signal(SIGABRT, on_abort as *const () as usize);
     }
 }
 
